@@ -241,10 +241,12 @@ func switchThreading(v *VM) *val.Val {
 			v.pc += w
 
 			m := val.Map(ty.(*types.Type).Map()).Map()
+			kvs := make([]*val.Val, sz*2)
+			for i := sz*2 - 1; i >= 0; i-- {
+				kvs[i] = v.Pop()
+			}
 			for i := 0; i < sz; i++ {
-				vl := v.Pop()
-				key := v.Pop()
-				m.V[key.Key()] = vl
+				m.V[kvs[i*2].Key()] = kvs[i*2+1]
 			}
 			v.Push(m.Vl())
 
